@@ -341,6 +341,12 @@ func mixFrames(rng *rand.Rand, count int, tagBase uint32) [][]byte {
 				pi.TableId = uint8(rng.Intn(250))
 				pi.Cookie = rng.Uint64()
 				pi.Match.AddField(*of.NewInPortField(uint32(1 + rng.Intn(48))))
+				// what Open vSwitch adds to a packet-in match: tunnel metadata, registers, conntrack state (raw NXM payloads)
+				if rng.Intn(2) == 0 {
+					pi.Match.AddField(*of.NewTunMetadataField(rng.Intn(4), payload(8), nil))
+					pi.Match.AddField(*of.NewRegMatchField(rng.Intn(8), rng.Uint32(), nil))
+					pi.Match.AddField(*of.NewCTZoneMatchField(uint16(rng.Intn(65536))))
+				}
 				eth := protocol.NewEthernet()
 				eth.HWDst, eth.HWSrc = mac(), mac()
 				if rng.Intn(3) == 0 {
